@@ -271,6 +271,7 @@ func canonData(d string) string {
 // dereferenced, returns that same subscription.
 func (hr *hubRun) derefListed(op hubOp, w *fakeRW, now time.Time, cs hubCase) {
 	var coll struct {
+		LastEventID   string `json:"lastEventID"`
 		Subscriptions []struct {
 			ID, Subscriber, Topic string
 		} `json:"subscriptions"`
@@ -279,6 +280,18 @@ func (hr *hubRun) derefListed(op hubOp, w *fakeRW, now time.Time, cs hubCase) {
 		return
 	}
 	rp := map[string]any{"family": "hub", "case": cs}
+	// the last event id the API reports is the id of the newest stored update (read from the bucket itself, not
+	// from the transport's memory) — also right after a restart on an existing history
+	if bt, isBolt := hr.f.tr.(*mercure.BoltTransport); isBolt && !hr.stopped {
+		_, ids := mercure.VerifBoltKeys(bt)
+		want := "earliest"
+		if len(ids) > 0 {
+			want = ids[len(ids)-1]
+		}
+		if coll.LastEventID != want {
+			hr.extra = append(hr.extra, h.Violation{Key: "C18:last-event-id-is-not-the-newest-stored-update", What: fmt.Sprintf("the collection reports lastEventID %q; the newest stored update is %q", coll.LastEventID, want), Replay: rp})
+		}
+	}
 	if op.Topic == "" && !hr.stopped {
 		want := 0
 		for _, lc := range hr.conns {
